@@ -4,6 +4,7 @@ This is useful for inverting some bijections that do not have a known inverse.
 """
 
 from collections.abc import Callable
+from functools import partial
 from typing import NamedTuple
 
 import equinox as eqx
@@ -26,11 +27,13 @@ class AutoregressiveBisectionInverter(eqx.Module):
         max_iter: Maximum number of iterations to use.
     """
 
+    # dtype=float: python scalars would otherwise give weakly typed leaves, which do not
+    # survive serialisation (the restored model then promotes differently).
     lower: Real[Array, ""] = eqx.field(
-        default_factory=lambda: -10.0, converter=jnp.asarray
+        default_factory=lambda: -10.0, converter=partial(jnp.asarray, dtype=float)
     )
     upper: Real[Array, ""] = eqx.field(
-        default_factory=lambda: 10.0, converter=jnp.asarray
+        default_factory=lambda: 10.0, converter=partial(jnp.asarray, dtype=float)
     )
     tol: float = 1e-7
     max_iter: int = 200
